@@ -133,6 +133,19 @@ def real_history(sf, spec, evs, xs):
     for ev in evs:
         out = "ok"
         k = ev["ev"]
+        try:
+            out = _one_call(sf, prog, ev, xs, runs)
+        except Exception as e:  # noqa: BLE001 -- every call the harness issues is legal: it must not raise
+            steps.append(dict(out="raised %s: %s" % (type(e).__name__, str(e)[:120]), st=T.snapshot(prog)))
+            return steps, runs, prog
+        steps.append(dict(out=out, st=T.snapshot(prog)))
+    return steps, runs, prog
+
+
+def _one_call(sf, prog, ev, xs, runs):
+    if True:
+        out = "ok"
+        k = ev["ev"]
         if k == "unroll":
             try:
                 prog.unroll(shots=ev["shots"])
@@ -155,8 +168,7 @@ def real_history(sf, spec, evs, xs):
             out = dict(executed=rec.get("executed"), backendModes=rec.get("backendModes"), nstate=nstate)
             runs.append(dict(ev=ev, log=log, samples=None if res.samples is None else np.array(res.samples),
                              samples_dict={int(k2): np.array(v) for k2, v in (res.samples_dict or {}).items()}))
-        steps.append(dict(out=out, st=T.snapshot(prog)))
-    return steps, runs, prog
+        return out
 
 
 def norm_model_step(m):
@@ -175,6 +187,12 @@ def history_case(ctx, sf, spec, evs, reqs, pending, xs):
     for ev in evs:
         ctx.tally("ev:" + ev["ev"] + (":space" if ev.get("space") else "") + (":crop" if ev.get("crop") else ""))
     steps, runs, prog = real_history(sf, spec, evs, xs)
+    if steps and isinstance(steps[-1]["out"], str) and steps[-1]["out"].startswith("raised"):
+        ctx.oracle_cases += 1
+        names = [e["ev"] + ("(%s)" % e["shots"] if "shots" in e else "") + ("+space" if e.get("space") else "") for e in evs[:len(steps)]]
+        ctx.fail("call-raises:" + evs[len(steps) - 1]["ev"], f"N={spec['N']} timebins={spec['T']}: after {names} the last call "
+                 f"{steps[-1]['out']}", dict(kind="history", spec=spec, evs=evs, xs=list(xs)))
+        return
     oracle_history(ctx, sf, spec, evs, steps, runs, xs)
     reqs.append(dict(op="tdm.history", evs=evs, **T.model_cfg(spec)))
     pending.append((case, steps))
@@ -363,8 +381,11 @@ def oracle_loop(ctx, sf, spec, shots, xs):
         with T.scripted_homodyne(xs, log_t):
             try:
                 res = sf.Engine("gaussian").run(prog, shots=shots)
-            except (IndexError, KeyError) as e:
+            except Exception as e:  # noqa: BLE001
                 err = e
+    if err is not None and len(log_t) != len(log_e):
+        ctx.fail("run-raises", f"run(shots={shots}) of N={spec['N']} shift={spec['shift']} raises {type(err).__name__}: {str(err)[:100]}", rp)
+        return
     # (1) same joint distribution of all measured pulses: chain of conditional (mean, variance)
     if len(log_t) != len(log_e):
         ctx.fail("loop-length", f"unrolled program performs {len(log_t)} measurements, the explicit loop {len(log_e)}", rp)
@@ -409,14 +430,19 @@ def oracle_space(ctx, sf, spec, crop):
     prog = T.build(sf, spec)
     with warnings.catch_warnings():
         warnings.simplefilter("ignore")
-        res = sf.Engine("gaussian").run(prog, shots=None, space_unroll=True, crop=crop)
+        try:
+            res = sf.Engine("gaussian").run(prog, shots=None, space_unroll=True, crop=crop)
+        except Exception as e:  # noqa: BLE001
+            ctx.fail("run-raises", f"run(space_unroll=True, shots=None, crop={crop}) of N={spec['N']} timebins={spec['T']} raises "
+                     f"{type(e).__name__}: {str(e)[:100]}", rp)
+            return
         lo = int(prog.get_crop_value()) if crop else 0
     modes = list(range(lo, spec["T"]))
     st = res.state
-    if st.num_modes != len(modes):
-        ctx.fail("space-state-size", f"space-unrolled run returns {st.num_modes} modes, expected {len(modes)}", rp)
-        return
     if not modes:
+        return  # everything cropped: the engine returns no state object for an empty selection
+    if st is None or st.num_modes != len(modes):
+        ctx.fail("space-state-size", f"space-unrolled run returns {None if st is None else st.num_modes} modes, expected {len(modes)}", rp)
         return
     mu_e, cov_e = st_e.reduced_gaussian(modes)
     if not (np.allclose(st.means(), mu_e, atol=TOL) and np.allclose(st.cov(), cov_e, atol=TOL)):
